@@ -120,6 +120,20 @@ pub fn explore(
     max_points: usize,
     run: &mut dyn FnMut(&mut Chooser) -> bool,
 ) -> ExploreStats {
+    explore_shard(bound, max_points, 0, 1, run)
+}
+
+/// One of `nshards` disjoint parts of `explore`: the executions are partitioned by the position
+/// of their FIRST deviation (position mod nshards); the deviation-free execution belongs to
+/// shard 0 (the other shards run it once, uncounted, to learn the choice points).  The union of
+/// all shards is exactly the execution set of `explore`.
+pub fn explore_shard(
+    bound: usize,
+    max_points: usize,
+    shard: usize,
+    nshards: usize,
+    run: &mut dyn FnMut(&mut Chooser) -> bool,
+) -> ExploreStats {
     let mut stats = ExploreStats::default();
     stats.executions_by_dev = vec![0; bound.min(8) + 1];
     let mut stack: Vec<Vec<u16>> = vec![vec![]];
@@ -133,18 +147,21 @@ pub fn explore(
             prefix.len()
         );
         let dev = prefix.iter().filter(|c| **c != 0).count();
-        stats.executions += 1;
-        if stats.executions_by_dev.len() <= dev {
-            stats.executions_by_dev.resize(dev + 1, 0);
+        let counted = !(prefix.is_empty() && shard != 0);
+        if counted {
+            stats.executions += 1;
+            if stats.executions_by_dev.len() <= dev {
+                stats.executions_by_dev.resize(dev + 1, 0);
+            }
+            stats.executions_by_dev[dev] += 1;
+            stats.transitions += ch.choices.len() as u64;
+            let new_nodes = if prefix.is_empty() {
+                ch.choices.len() + 1
+            } else {
+                ch.choices.len() - prefix.len() + 1
+            };
+            stats.states += new_nodes as u64;
         }
-        stats.executions_by_dev[dev] += 1;
-        stats.transitions += ch.choices.len() as u64;
-        let new_nodes = if prefix.is_empty() {
-            ch.choices.len() + 1
-        } else {
-            ch.choices.len() - prefix.len() + 1
-        };
-        stats.states += new_nodes as u64;
         stats.max_points = stats.max_points.max(ch.choices.len());
         if ch.horizon_hit {
             stats.horizon_hits += 1;
@@ -157,6 +174,9 @@ pub fn explore(
         }
         // children, pushed in reverse so that earlier points / smaller alternatives run first
         for i in (prefix.len()..ch.choices.len()).rev() {
+            if prefix.is_empty() && i % nshards.max(1) != shard {
+                continue;
+            }
             for alt in (1..ch.arity[i]).rev() {
                 let mut p = ch.choices[..i].to_vec();
                 p.push(alt);
